@@ -688,6 +688,15 @@ class CallsMixin:
         return outs
 
     def bi_dict(self, node, st):
+        if len(node.args) == 1 and not node.keywords:
+            outs = []
+            for (s, d) in self.ev(node.args[0], st):
+                if not self.known(s, self.is_kind(s, d, Z.K_DICT)):
+                    raise Unsupported("dict(x) of a non-dict", node)
+                a = Z.addr(d)
+                h2, r = s.heap.new_dict(s.heap.keys(a), s.heap.vals(a), s.heap.size_of(a))
+                outs.append((s.with_heap(h2), Z.mk_ref(r)))
+            return outs
         if node.args or node.keywords:
             raise Unsupported("dict(...) with arguments", node)
         h2, a = st.heap.new_dict(empty_keys(), z3.K(Val, Z.NONE), z3.IntVal(0))
